@@ -279,8 +279,27 @@ def verify_function(key, table, fields, monitor=None, timeout_ms=None, cex_fn=No
             if g not in mod_ghost and not val.eq(g_old(g)):
                 obligations.append(Obligation("%s/frame[ghost %s]" % (key, g), s.pc, val == g_old(g), s.sig, "frame",
                                               "ghost " + g, con.props))
-    # discharge
+    # discharge: the post clauses of one path are first tried as a single conjunction
+    groups = {}
     for ob in obligations:
+        if ob.kind == "post":
+            groups.setdefault(id(ob.hyps[0]) if False else tuple(ob.sig) + (ob.extra.get("outcome"), len(ob.hyps)), []).append(ob)
+    merged_ok = set()
+    for key_, obs in groups.items():
+        if len(obs) < 3:
+            continue
+        same = all(len(o.hyps) == len(obs[0].hyps) for o in obs)
+        if not same:
+            continue
+        v = solve.check_valid(obs[0].hyps, z3.And(*[o.goal for o in obs]), timeout_ms)
+        if v.status == "discharged":
+            for o in obs:
+                merged_ok.add(id(o))
+                o._merged = solve.Verdict("discharged", v.backend, v.secs / len(obs))
+    for ob in obligations:
+        if id(ob) in merged_ok:
+            res.obligations.append(ObResult(ob, ob._merged))
+            continue
         v = solve.check_valid(ob.hyps, ob.goal, timeout_ms)
         r = ObResult(ob, v)
         if v.status == "refuted" and cex_fn is not None:
